@@ -29,10 +29,13 @@ def tie(rep, tier, rng, model_ok):
     q = tier == "quick"
     a = simprops.corpus_cases("C16") + [gen(rng) for _ in range(400 if q else 10000)]
     f = [simgen.gen_fault(rng, rng.choice(["panic", "norecip_model", "dead_query"])) for _ in range(200 if q else 3000)]
+    # more models than one injector bucket of the multi-threaded executor holds (128): every one must be initialised
+    w = [simgen.gen_wide(rng) for _ in range(4 if q else 40)]
     simprops.run(rep, "C16", model_ok,
-                 [("hierarchies", a, (1, 4) if q else (1, 2, 4, 8, 16), ORACLES, nontrivial),
+                 [("wide", w, (1, 2, 4), ORACLES, lambda c, o: True),
+                  ("hierarchies", a, (1, 4) if q else (1, 2, 4, 8, 16), ORACLES, nontrivial),
                   ("names-in-reports", f, (1, 4), (oracles.o_harness, oracles.o_attribution, oracles.o_init), lambda c, o: len(c["models"]) > 2)],
-                 "hierarchies of depth 0..3 (sub-models added in ProtoModel::build, some unnamed), init scripts sending events/queries to other models (including not-yet-initialised ones), mailboxes of capacity 1..16; oracle: one init per added model, inside SimInit::init, before any of its handlers, Context::name() = parent.child. non-trivial = has a sub-model and an init script")
+                 "wide: 129..300 models (more than one 128-task injector bucket), each must be initialised once. hierarchies of depth 0..3 (sub-models added in ProtoModel::build, some unnamed), init scripts sending events/queries to other models (including not-yet-initialised ones), mailboxes of capacity 1..16; oracle: one init per added model, inside SimInit::init, before any of its handlers, Context::name() = parent.child. non-trivial = has a sub-model and an init script")
 
 
 def replay(rep, path, model_ok):
